@@ -37,6 +37,9 @@ AWKWARD_TEXT = [
     "#comment-like", "<1, 2, 3>", "<not a vector", "00000000-0000-0000-0000-000000000000", "=$ evil", "[Block]",
     "embedded\x00nul", "unicode é中\U0001f600", "  leading space", "trailing space  ", "a=b", "x\r\ny",
     "\\\n", "'''", '"""', "\x7f\x01\x02", "ends with backslash n \\n",
+    # text that also looks like something else: a byte-order mark in front, numbers, literals, a message name, separators
+    "\ufeffabc", "\ufeff", "abc\ufeff", "123", "-1", "1e5", "0x10", "nan", "inf", "True", "None", "b'abc'", "ChatFromViewer",
+    "\u2028line", "e\u0301", "(1, 2, 3)", "[[AGENT_ID]]",
 ]
 
 AWKWARD_BYTES = [
